@@ -138,4 +138,26 @@ CHECKS = {
         jobs=[dict(test="TestC13Enum", kind="enum", quick=1, thorough=1), dict(test="TestC13", quick=1600, thorough=40000)],
         assumptions=COMMON_ASSUMPTIONS,
     ),
+    "C05": dict(
+        level="exploration",
+        rule=("(a) bounded-exhaustive: for the shapes (envelopes per call) {(2,2),(1,3),(2,2,2),(3,2,1),(1,1,1),(3,3)} in the quick tier and all shapes up to (3,3,3) in the thorough tier, every multiset permutation of the calls' envelopes is played, "
+              "on the client side (scripted server answering k outstanding calls: unary replies, bodies, trailers with per-call tokens and trailer metadata) and on the server side (scripted caller interleaving the opens, bodies and trailers of k streams and unary requests; handlers echo); "
+              "(b) rapid: 2..8 calls with 1..6 envelopes each in a drawn interleaving; (c) id allocation: bursts of 2..64 callers (unary and streams) released from one gate in the same step, 1..4 bursts per connection; (d) one history of 10^4 (quick) / 10^5 (thorough) unary calls on one connection. "
+              "Oracle: every call/handler observes exactly its own envelope contents in its own order and nothing else (tokens, request metadata, trailer metadata, echoes per id); the opening ids on the wire are pairwise distinct and as many as calls. "
+              "Non-trivial = an interleaving with >=1 switch between calls, or a burst of >=8 concurrent starts; distinct = distinct (side, shape, interleaving)."),
+        jobs=[dict(test="TestC05Enum", kind="enum", quick=1, thorough=1), dict(test="TestC05", quick=800, thorough=20000), dict(test="TestC05IDs", quick=160, thorough=2000),
+              dict(test="TestC05History", kind="enum", quick=1, thorough=1, shards=1)],
+        floors={"side=client": 0.2, "side=server": 0.2},
+        assumptions=COMMON_ASSUMPTIONS,
+    ),
+    "C14": dict(
+        level="exploration",
+        rule=("rapid-generated histories on one long-lived client+server connection: 1..6 rounds of 1..32 RPCs in flight together, each of a drawn kind (unary/client/server/bidi) and outcome "
+              "(ok, handler error, caller cancel, virtual-clock deadline, server reset of a stream whose handler returned while the caller keeps sending, open whose transport write fails), 0..3 messages each; after every round the bubble is settled (quiescent point). "
+              "Invariant at every quiescent point: goat.VerifClientCalls(cc)==0, goat.VerifServerStreams()==0 (verif-tagged registry accessors) and the multiset of creation sites of the bubble's live goroutines equals the idle set recorded right after connection start. "
+              "Non-trivial = history with >=3 different outcomes and a round of >=8 RPCs; counters.rpcs = RPCs executed."),
+        jobs=[dict(test="TestC14", quick=800, thorough=48000)],
+        floors={"outcome=openfail": 0.2, "outcome=cancel": 0.2, "outcome=deadline": 0.2, "outcome=reset": 0.2},
+        assumptions=COMMON_ASSUMPTIONS + ["registry sizes are read through the verif-tagged accessors VerifClientCalls / VerifServerStreams"],
+    ),
 }
